@@ -12,6 +12,7 @@ pub mod c12;
 pub mod c13;
 pub mod c13_e2e;
 pub mod c14;
+pub mod c15;
 pub mod c16;
 pub mod c17;
 pub mod c19;
@@ -33,6 +34,7 @@ pub fn run(id: &str, tier: &str) -> Option<i32> {
         "C12" => { let r = Report::new(id, tier, "model_checking"); c12::check(&r); r }
         "C13" => { let r = Report::new(id, tier, "model_checking"); c13::check(&r); r }
         "C14" => { let r = Report::new(id, tier, "model_checking"); c14::check(&r); r }
+        "C15" => { let r = Report::new(id, tier, "model_checking"); c15::check(&r); r }
         "C16" => { let r = Report::new(id, tier, "model_checking"); c16::check(&r); r }
         "C17" => { let r = Report::new(id, tier, "model_checking"); c17::check(&r); r }
         "C19" => { let r = Report::new(id, tier, "model_checking"); c19::check(&r); r }
@@ -55,6 +57,7 @@ pub fn replay(id: &str, path: &str) -> Option<i32> {
         "C12" => Some(c12::replay(path)),
         "C13" => Some(c13::replay(path)),
         "C14" => Some(c14::replay(path)),
+        "C15" => Some(c15::replay(path)),
         "C16" => Some(c16::replay(path)),
         "C17" => Some(c17::replay(path)),
         "C19" => Some(c19::replay(path)),
